@@ -148,6 +148,10 @@ type vfSwitch struct {
 	parkGate  chan struct{}
 	parked    atomic.Int32
 	seq       atomic.Int64
+	// directed schedule: SetDeadline calls on parkDLOwner's sockets wait on parkDLGate
+	parkDLOwner string
+	parkDLGate  chan struct{}
+	parkedDL    atomic.Int32
 }
 
 func newVfSwitch() *vfSwitch {
@@ -268,6 +272,18 @@ func (c *vfConn) Close() error {
 	return nil
 }
 func (c *vfConn) SetDeadline(t time.Time) error {
+	// directed schedule: SetDeadline of this owner's sockets waits on a gate (the agent's pre-stop abort calls it)
+	c.sw.mu.Lock()
+	gate := c.sw.parkDLGate
+	if c.sw.parkDLOwner != c.owner {
+		gate = nil
+	}
+	c.sw.mu.Unlock()
+	if gate != nil {
+		c.sw.parkedDL.Add(1)
+		<-gate
+		c.sw.parkedDL.Add(-1)
+	}
 	_ = c.SetWriteDeadline(t)
 
 	return c.SetReadDeadline(t)
